@@ -687,13 +687,13 @@ def _selftest():
 def subchecks(ctx):
     reps = 5 if ctx.tier == "quick" else 20
     return [
-        Sub("sequential", seq_case(), prop_sequential, {"quick": 125, "thorough": 4000},
+        Sub("sequential", seq_case(), prop_sequential, {"quick": 125, "thorough": 10000},
             nontrivial=nt_sequential, classes=classes_sequential,
             rule="state before == after; repeat, copy, later, final and snapshot evaluations give one value"),
-        Sub("batch", batch_case(), prop_batch, {"quick": 30, "thorough": 800},
+        Sub("batch", batch_case(), prop_batch, {"quick": 30, "thorough": 2000},
             nontrivial=lambda c: True, classes=classes_batch,
             rule="3..6 points rebuilt and evaluated in two visiting orders within one command; >= 2 accepted"),
-        Sub("threads", plan_case(reps), prop_threads, {"quick": 15, "thorough": 400},
+        Sub("threads", plan_case(reps), prop_threads, {"quick": 15, "thorough": 1000},
             nontrivial=nt_threads, classes=classes_threads,
             rule="thread plan: sequential reference, then %d concurrent repetitions under ThreadSanitizer; "
                  "non-trivial = >= 2 threads on one shared model or >= 2 constructing threads" % reps),
